@@ -102,6 +102,9 @@ def gen_wind(rng, max_fps=60.0, until_ft=None):
          "direction": gen_angle_deg(rng, round(rng.uniform(0, 359), 1))}
     if until_ft is not None:
         s["until"] = gen_distance_ft(rng, until_ft, ("Foot", "Yard", "Meter"))
+    if rng.random() < 0.12:
+        # the keyword-only custom "no wind beyond" distance, sometimes shorter than the flight
+        s["max_distance_feet"] = pick(rng, [150.0, 600.0, 2500.0, 1e6])
     return s
 
 
